@@ -115,6 +115,16 @@ def install_fixture() -> None:
     m.Cls = _TrapCls  # type: ignore[attr-defined]
     m.Exc = FixExc  # type: ignore[attr-defined]
     m.inst = _TrapCallableInstance()  # type: ignore[attr-defined]
+    import functools
+
+    @functools.wraps(FixExc)
+    def shim(*a: Any, **k: Any) -> Any:          # a deprecation shim: __wrapped__ points at an exception class, but it is a function
+        CALLS.append("shim")
+        return "pwned"
+    m.shim = shim  # type: ignore[attr-defined]
+    m.part = functools.partial(_trap_fn, 1)  # type: ignore[attr-defined]
+    FixExc.notify = staticmethod(_trap_fn)  # type: ignore[attr-defined]      # non-exception attributes reachable THROUGH an exception class
+    FixExc.Meta = _TrapCls  # type: ignore[attr-defined]
     m.Outer = Outer  # type: ignore[attr-defined]
     sub = types.ModuleType(FIX + ".sub")
     sub.Exc2 = FixExc  # type: ignore[attr-defined]
@@ -153,6 +163,8 @@ TARGETS: Dict[str, Any] = {
     "exc": (FIX, "Exc", "exc"), "nested_exc": (FIX, "Outer.InnerExc", "exc"), "builtin_exc": ("builtins", "ValueError", "exc"),
     "baseonly": (FIX, "FixBaseOnly", "exc"), "custominit": (FIX, "FixCustomInit", "exc_noinit"),
     "sub_exc": (FIX, "sub.Exc2", "exc"), "mixed": (FIX, "FixMixed", "exc_noinit"),
+    "wrapped_func": (FIX, "shim", "func"), "exc_method": (FIX, "Exc.notify", "func"), "exc_inner_cls": (FIX, "Exc.Meta", "cls"),
+    "partial_inst": (FIX, "part", "inst"),
     # objects that live in taskiq's own serialization module are no more trustworthy than any other non-exception
     "own_func": ("taskiq.serialization", "safe_repr", "func"), "own_cls": ("taskiq.serialization", "ExceptionRepr", "cls"),
     "own_factory": ("taskiq.serialization", "create_exception_cls", "func"), "own_exc_mod_func": ("taskiq.exceptions", "root", "module"),
@@ -278,6 +290,19 @@ def make_args(kind: str, salt: int) -> tuple:
         return ("ok", {3}, lambda: 1, _Unreprable(), 7)
     if kind == "const":
         return ("same for every node", 1)
+    if kind == "localscalar":
+        # instances of function-local subclasses of scalar types: isinstance(int / str) but neither picklable nor importable
+        import enum
+
+        class Colour(enum.IntEnum):
+            RED = 1 + salt % 3
+
+        class Tag(str):
+            pass
+        return (Colour.RED, Tag("t%d" % salt))
+    if kind == "nocopy":
+        import threading
+        return ("m", threading.Lock())             # cannot be pickled, cannot be deep-copied
     if kind == "loadfail":
         # pickles (by reduce) but cannot be loaded back: its class cannot be rebuilt from its args
         return ("m", FixCustomInit(404, "not found"))
